@@ -25,6 +25,7 @@ META = {
     "design_ref": "DESIGN.md §3 C15",
     "engines": ["oracles"],
 }
+REQUIRED = ("hv_finite_compared", "rank_calls", "hssp_ratio_compared")
 SHARDS = {"quick": 8, "thorough": 16}
 WATCHDOG_S = {"quick": 600, "thorough": 3 * 3600}
 INF = float("inf")
@@ -302,9 +303,6 @@ def run(ctx: Ctx) -> None:
         _rank_check(ctx, rng, P, fam)
         _hssp_check(ctx, rng, P, r, fam)
         _callers_check(ctx, rng, P, fam)
-    for key in ("hv_finite_compared", "rank_calls", "hssp_ratio_compared"):
-        if ctx.counters[key] == 0:
-            ctx.inconclusive_because(f"monitor {key} never evaluated")
 
 
 def replay(ctx: Ctx, w: dict) -> None:
